@@ -19,8 +19,8 @@ import (
 
 func init() {
 	core.Register(&core.Check{
-		ID: "C38",
-		Rule: "cases: (a) PRNG-generated editions/proto2/proto3 schemas with feature overrides at file, message, field, enum and oneof level (strict targets, and lax: field-level features placed on messages), built by both constructions: HasPresence, Cardinality, IsPacked, Kind (DELIMITED => group except maps), IsClosed, EnforceUTF8 of every field/extension/enum vs a reference resolver (edition defaults from the language specification table, nearest override along file-message-field); the embedded FeatureSetDefaults are compared with that table; (b) every pair of linked message types (one from a proto2/proto3 file, one from an editions file) with identical field shape: for structure-aware valid and mutated wire inputs both decode with the same verdict, re-marshal to the same deterministic bytes and print the same JSON and text modulo type names; distinct = distinct (schema file) or (pair, input); non-trivial = file with at least one field / input of at least one byte",
+		ID:     "C38",
+		Rule:   "cases: (a) PRNG-generated editions/proto2/proto3 schemas with feature overrides at file, message, field, enum and oneof level (strict targets, and lax: field-level features placed on messages), built by both constructions: HasPresence, Cardinality, IsPacked, Kind (DELIMITED => group except maps), IsClosed, EnforceUTF8 of every field/extension/enum vs a reference resolver (edition defaults from the language specification table, nearest override along file-message-field); the embedded FeatureSetDefaults are compared with that table; (b) every pair of linked message types (one from a proto2/proto3 file, one from an editions file) with identical field shape: for structure-aware valid and mutated wire inputs both decode with the same verdict, re-marshal to the same deterministic bytes and print the same JSON and text modulo type names; distinct = distinct (schema file) or (pair, input); non-trivial = file with at least one field / input of at least one byte",
 		Assume: []string{"harness/model/featref.go: edition default table (protobuf editions specification) and nearest-override inheritance", "descriptor accessors as the way to read resolved features"},
 		Batches: func(tier string) []core.Batch {
 			var bs []core.Batch
